@@ -296,7 +296,7 @@ def _format_code(
     source = rmspace.format_str(source)
 
     if minimum_indent > 0:
-        source = textwrap.indent(source, " " * minimum_indent)
+        source = core.indent(source, " " * minimum_indent)
 
     source, *_ = processing.minimize_whitespace_line_differences(original_source, source)
 
